@@ -326,10 +326,17 @@ def phys_large(factor):
     sx.reach("phys-large")
 
 
-def phys_samples(carrier, factor):
-    """magnitudes the FP queries do not reach: concrete raw values and requests for this factor"""
+def phys_samples(carrier, factor, limits=False):
+    """magnitudes the FP queries do not reach: concrete raw values and requests for this factor.  limits: the entry
+    also carries LowLimit/HighLimit (raw counts, advisory): scaling is the same"""
     big = I32 if carrier == "pdou" else I64
-    car = CARRIERS[carrier](big, lambda v: setattr(v, "factor", factor))
+
+    def cfg(v):
+        v.factor = factor
+        if limits:
+            v.min, v.max = 100, 300
+            sx.reach("phys-limits")
+    car = CARRIERS[carrier](big, cfg)
     af = abs(factor)
     tol = af * (0.5 + 2.0 ** -20)
     tag = "C20/phys-samples/%s/%r" % (carrier, factor)
@@ -387,6 +394,9 @@ def jobs(tier):
     out.append(dict(func="phys", params=dict(carrier="pdou", factor=0.5, kind="float", R=31), weight=200,
                     limits=dict(fast_ms=300)))
     out.append(dict(func="phys_samples", params=dict(carrier="pdou", factor=0.1)))
+    for f in (0.1, 10, -2.5):
+        for carrier in ("sdo", "pdo"):
+            out.append(dict(func="phys_samples", params=dict(carrier=carrier, factor=f, limits=True)))
     for f, kind, R in (PHYS_Q if tier == "quick" else PHYS_T):
         for carrier in (("sdo",) if tier == "quick" and R < 31 else ("sdo", "pdo")):
             out.append(dict(func="phys", params=dict(carrier=carrier, factor=f, kind=kind, R=R),
@@ -421,7 +431,7 @@ META = dict(
                     "writing the sign bit of a signed type through .bits", "non-contiguous bit lists"],
     assumptions=["z3 FP theory for float64 arithmetic"],
     stubs=["struct", "bytes", "dict displays -> SymDict", "logging"],
-    required_reach=["bits", "bits-redefined", "bits-kept", "desc", "desc-edited", "desc-outside", "phys-int", "phys-float", "phys-real", "phys-large", "phys-samples"],
+    required_reach=["phys-limits", "bits", "bits-redefined", "bits-kept", "desc", "desc-edited", "desc-outside", "phys-int", "phys-float", "phys-real", "phys-large", "phys-samples"],
     limits=dict(quick=dict(query_timeout_ms=200000), thorough=dict(query_timeout_ms=900000)),
     validate_every=dict(quick=7, thorough=3),
 )
